@@ -471,7 +471,7 @@ pub fn bld() -> BoxedStrategy<Bld> {
     let floors = (1usize..=3).prop_flat_map(|n| (0..n).map(floor_b).collect::<Vec<_>>());
     let shades = proptest::collection::vec(
         prop_oneof![
-            (dec2(-30.0, 30.0), dec2(-30.0, 30.0), dec2(0.0, 10.0), dec2(0.5, 10.0), dec2(0.5, 10.0), prop_oneof![Just(0.0f32), Just(90.0), Just(180.0), Just(270.0), dec2(0.0, 359.0)], prop_oneof![3 => Just(90.0f32), 1 => dec2(10.0, 170.0)])
+            (dec2(-30.0, 30.0), dec2(-30.0, 30.0), dec2(0.0, 10.0), dec2(0.5, 10.0), dec2(0.5, 10.0), prop_oneof![Just(0.0f32), Just(90.0), Just(180.0), Just(270.0), dec2(0.0, 359.0)], prop_oneof![6 => Just(90.0f32), 3 => dec2(10.0, 170.0), 1 => Just(0.0f32), 1 => Just(180.0f32), 1 => dec2(170.0, 180.0)])
                 .prop_map(|(x, y, z, width, height, azimuth, tilt)| ShadeB::Rect { name: String::new(), x, y, z, width, height, azimuth, tilt }),
             (dec2(-30.0, 30.0), dec2(-30.0, 30.0), dec2(0.0, 10.0), dec2(1.0, 15.0), dec2(1.0, 15.0), dec2(0.0, 359.0), prop_oneof![3 => Just(90.0f32), 2 => Just(0.0f32), 4 => dec2(20.0, 160.0), 2 => dec2(0.05, 3.0), 1 => dec2(3.0, 20.0)]).prop_map(|(x, y, z, w, h, az, tilt)| {
                 // a planar rectangle in a random pose, given by its four corners
